@@ -63,7 +63,7 @@ let chunk_name (site : string) (dc : bool) (i : int) : string =
   if L.mem site visual_names && i = 3 then "compressorname-padding-zeroed"
   else if L.mem site visual_names && i = 4 then "depth-rewritten-0x0018"
   else if L.mem site audio_names && i = 3 then "samplerate-fraction-dropped"
-  else if site = "avcC" && i = 5 then "bytes-after-record-dropped"
+  else if (site = "avcC" || site = "hvcC") && i = 5 then "bytes-after-record-dropped"
   else if site = "elng" && i = 0 then "elng-unterminated-language-rewritten"
   else if dc then "reserved-bits-rewritten" else Printf.sprintf "chunk%d-rewritten" i
 let reason_str (site : string) (r : reason) : string =
